@@ -26,11 +26,12 @@ TCall  == /\ Is("call") /\ hi = -1
 TH     == /\ Is("h") /\ hi >= 0 /\ hi < Len(exp.st.obs)
           /\ [ctx |-> Ev.ctx, dl |-> Ev.dl, settle |-> Ev.settle] = exp.st.obs[hi + 1]
           /\ hi' = hi + 1 /\ UNCHANGED <<run, cur, exp>> /\ Adv
-Near(a, b) == IF a < 0 \/ b < 0 THEN a = b ELSE (a - b <= 2 /\ b - a <= 2)
+\* (the logged delay is cut to whole microseconds: Fresh starts derr at 1)
+Near(a, b, tol) == IF a < 0 \/ b < 0 THEN a = b ELSE (a - b <= tol /\ b - a <= tol)
 TRet   == /\ Is("ret") /\ hi = Len(exp.st.obs)          \* exactly the expected number of invocations
           /\ Ev.outs = exp.res.outs /\ Ev.err = exp.res.err /\ Ev.panic = exp.res.panic
           /\ Ev.ctx = exp.st.ctx /\ Ev.dl = exp.st.dl
-          /\ Near(Ev.delay, exp.st.delay)
+          /\ Near(Ev.delay, exp.st.delay, exp.st.derr)
           /\ Ev.settle = exp.st.settle
           /\ cur' = [k |-> exp.st.k, settle |-> exp.st.settle, delay |-> Ev.delay]
           /\ hi' = -1 /\ UNCHANGED <<run, exp>> /\ Adv
